@@ -79,7 +79,9 @@ impl ThreadKey {
 		// safety: if this code changes, check to ensure the requirement for
 		//         the Drop implementation is still true
 		KEY.with(|key| {
-			key.try_lock().then_some(Self {
+			// not `then_some`: its argument would be built (and, on failure,
+			// dropped, which unlocks the cell) even if the key is already taken
+			key.try_lock().then(|| Self {
 				phantom: PhantomData,
 			})
 		})
